@@ -35,7 +35,11 @@ import (
 type c11File struct {
 	Name     Bs   `json:"name"`
 	Chunks   []Bs `json:"chunks"`             // what successive Reads deliver
-	Declared *Bs  `json:"declared,omitempty"` // ContentType() when not nil
+	Declared *Bs  `json:"declared,omitempty"` // ContentType() when not nil (only a source of kind "" can declare one)
+	// how the caller made the NamedReadCloser (c11FileSources): "" = a caller type with its own Name();
+	// the others go through runtime.NamedReader(Name, inner) or hand over an *os.File
+	Src   string `json:"src,omitempty"`
+	Inner Bs     `json:"inner,omitempty"` // the name the wrapped reader has of its own (named-own, renamed)
 }
 
 type c11Field struct {
@@ -55,6 +59,9 @@ type c11In struct {
 	Media   Bs             `json:"media,omitempty"`
 	Preset  *Bs            `json:"preset,omitempty"`  // Content-Type set by the parameter writer itself
 	Payload string         `json:"payload,omitempty"` // nil | value | reader | readcloser
+	VType   string         `json:"vtype,omitempty"`   // dynamic type of a value payload (c11ValueTypes); "" = string
+	Consumed Bs            `json:"consumed,omitempty"` // reader payloads: what the caller read from the reader before handing it over
+	SeekTo  bool           `json:"seek_to,omitempty"` // ... or skipped with Seek(len(Consumed), SeekStart) when the reader can seek
 	RType   string         `json:"rtype,omitempty"`   // dynamic type of a reader / readcloser payload (c11ReaderTypes, c11ReadCloserTypes); "" = a type with Read (and Close) only
 	Content Bs             `json:"content,omitempty"`
 	Form    []c11Field     `json:"form,omitempty"`
@@ -106,6 +113,8 @@ type c11Obs struct {
 	FileOrder  []c11FileField `json:"-"`
 	Escaped    Bs         `json:"escaped,omitempty"`
 	Base       Bs         `json:"base,omitempty"`
+	OSNames    map[string]string `json:"-"` // "<file field>/<index>" -> the path of the *os.File behind that upload
+	ValueGo    string     `json:"value_go,omitempty"` // %T of the value payload
 }
 
 type c11 struct{}
@@ -118,7 +127,8 @@ func (c11) Rule() string {
 	return "requests built by the real Runtime.CreateHttpRequest: payload kinds nil/value (real JSON, text, XML, byte-stream producers and tagging/failing/unregistered ones)/io.Reader/io.ReadCloser, " +
 		"form fields only, files only, both, with 0-3 values and files per field; media types incl. the two form types, case variants and unregistered ones; " +
 		"file names with quotes, backslashes, directories; file contents of lengths 0,1,511,512,513,4096,70000 and random, text and binary signatures, delivered whole or in short reads, declared or sniffed type; " +
-		"auth writer absent or calling GetBody 0,1,2,3 times. The outgoing request is read back with mime/multipart and url.ParseQuery. " +
+		"auth writer absent or calling GetBody 0,1,2,3 times; value payloads of 18 dynamic types (string, []byte, named/pointer variants, map, struct, slice, numbers, bool, typed nil pointer, json.RawMessage, marshalers) under every producer; " +
+		"reader payloads of 20 dynamic types, fresh or handed over after a prefix was read or seeked past; uploads made from an own type, through runtime.NamedReader (over plain, named, renamed readers, *os.File) or an *os.File itself. The outgoing request is read back with mime/multipart and url.ParseQuery. " +
 		"Non-trivial: a request that was built without error and carries a body."
 }
 
@@ -128,7 +138,51 @@ func (c11) Decode(raw json.RawMessage) (any, error) {
 		return nil, err
 	}
 	in.Form, in.Files = c11DedupFields(in.Form), c11DedupFiles(in.Files)
-	return in, nil
+	return c11Norm(in), nil
+}
+
+func c11In1(s string, set []string) bool {
+	for _, x := range set {
+		if x == s {
+			return true
+		}
+	}
+	return false
+}
+
+// c11Norm drops the fields that have no meaning for the chosen kinds, so that the category of a case tells the truth
+func c11Norm(in c11In) c11In {
+	if in.Payload != "value" || !c11In1(in.VType, c11ValueTypes) {
+		in.VType = ""
+	}
+	stream := in.Payload == "reader" || in.Payload == "readcloser"
+	if !stream {
+		in.Consumed, in.SeekTo, in.RType = "", false, ""
+	}
+	if (in.Payload == "reader" && !c11In1(in.RType, c11ReaderTypes)) || (in.Payload == "readcloser" && !c11In1(in.RType, c11ReadCloserTypes)) {
+		in.RType = ""
+	}
+	if len(in.Consumed) > 900 {
+		in.Consumed = in.Consumed[:900]
+	}
+	if !c11In1(in.RType, c11SeekableTypes) || len(in.Consumed) == 0 {
+		in.SeekTo = false
+	}
+	for i := range in.Files {
+		for j := range in.Files[i].Files {
+			f := &in.Files[i].Files[j]
+			if !c11In1(f.Src, c11FileSources) {
+				f.Src = ""
+			}
+			if f.Src != "" {
+				f.Declared = nil // runtime.NamedReader's result and *os.File have no ContentType()
+			}
+			if f.Src != "named-own" && f.Src != "renamed" {
+				f.Inner = ""
+			}
+		}
+	}
+	return in
 }
 
 // a Go map keeps one entry per name: the last one set wins
@@ -186,6 +240,27 @@ func (s *c11Src) Read(p []byte) (int, error) {
 func (s *c11Src) Close() error { s.closed++; return nil }
 func (s *c11Src) Name() string { return s.name }
 
+// the same chunked source without a name of its own: Read and Close only
+type c11PlainSrc struct{ src *c11Src }
+
+func (s c11PlainSrc) Read(p []byte) (int, error) { return s.src.Read(p) }
+func (s c11PlainSrc) Close() error               { return s.src.Close() }
+
+// Read only
+type c11BareSrc struct{ src *c11Src }
+
+func (s c11BareSrc) Read(p []byte) (int, error) { return s.src.Read(p) }
+
+// How the caller made the upload. The part must carry the base of the name the caller asked for:
+//   ""             a caller type with its own Name() (and ContentType() when declared)
+//   named          runtime.NamedReader(name, a reader with Read and Close)
+//   named-bare     runtime.NamedReader(name, a reader with Read only)
+//   named-own      runtime.NamedReader(name, a caller type whose own Name() says something else)
+//   renamed        runtime.NamedReader(name, runtime.NamedReader(inner, reader)): an upload renamed
+//   named-osfile   runtime.NamedReader(name, *os.File): a temporary file uploaded under another name
+//   osfile         the *os.File itself: the name is the path it was created with
+var c11FileSources = []string{"", "named", "named-bare", "named-own", "renamed", "named-osfile", "osfile"}
+
 type c11SrcCT struct {
 	*c11Src
 	ct string
@@ -210,8 +285,12 @@ func (r *c11ReadCloser) Close() error               { r.closed++; return nil }
 // *strings.Reader apart (ContentLength, GetBody), io.Copy tells io.WriterTo apart. The bytes sent and the bytes
 // shown to the auth writer must be the same for all of them.
 var c11ReaderTypes = []string{"", "bytes.Buffer", "bytes.Reader", "strings.Reader", "bufio.Reader", "writerto",
-	"onebyte", "dataeof", "halfread-buffer", "multireader", "limited"}
-var c11ReadCloserTypes = []string{"", "os.File", "nopcloser-buffer", "nopcloser-strings", "buffer+close", "writerto+close"}
+	"onebyte", "dataeof", "halfread-buffer", "multireader", "limited", "section"}
+var c11ReadCloserTypes = []string{"", "os.File", "nopcloser-buffer", "nopcloser-strings", "nopcloser-bytesreader", "buffer+close",
+	"writerto+close", "seeker+close"}
+
+// the reader types that also are an io.Seeker
+var c11SeekableTypes = []string{"bytes.Reader", "strings.Reader", "section", "os.File", "seeker+close"}
 
 // the payload is the caller's own *bytes.Buffer
 func c11IsBufferType(in c11In) bool {
@@ -239,9 +318,22 @@ type c11BufCloser struct {
 
 func (b *c11BufCloser) Close() error { b.closed++; return nil }
 
-// c11MakePayload builds the body parameter of a reader / readcloser payload with the requested dynamic type
+// c11MakePayload builds the body parameter of a reader / readcloser payload with the requested dynamic type. The
+// reader is made over Consumed + Content and the caller then consumes the prefix (by reading it, or with Seek when
+// SeekTo is set and the type can seek): what is left, Content, is the body.
 func c11MakePayload(in c11In) (payload any, cleanup func()) {
-	content := string(in.Content)
+	payload, cleanup = c11MakeReader(in, string(in.Consumed)+string(in.Content))
+	if n := len(in.Consumed); n > 0 {
+		if sk, ok := payload.(io.Seeker); ok && in.SeekTo {
+			_, _ = sk.Seek(int64(n), io.SeekStart)
+		} else {
+			_, _ = io.ReadFull(payload.(io.Reader), make([]byte, n))
+		}
+	}
+	return payload, cleanup
+}
+
+func c11MakeReader(in c11In, content string) (payload any, cleanup func()) {
 	cleanup = func() {}
 	if in.Payload == "reader" {
 		switch in.RType {
@@ -268,6 +360,8 @@ func c11MakePayload(in c11In) (payload any, cleanup func()) {
 			return io.MultiReader(strings.NewReader(content[:h]), bytes.NewBufferString(content[h:])), cleanup
 		case "limited":
 			return io.LimitReader(strings.NewReader(content+"beyond the limit"), int64(len(content))), cleanup
+		case "section": // a window into a larger file-like thing; it can seek
+			return io.NewSectionReader(strings.NewReader("before "+content+" after"), 7, int64(len(content))), cleanup
 		}
 		return &c11Reader{strings.NewReader(content)}, cleanup
 	}
@@ -284,12 +378,93 @@ func c11MakePayload(in c11In) (payload any, cleanup func()) {
 		return io.NopCloser(bytes.NewBufferString(content)), cleanup
 	case "nopcloser-strings":
 		return io.NopCloser(strings.NewReader(content)), cleanup
+	case "nopcloser-bytesreader":
+		return io.NopCloser(bytes.NewReader([]byte(content))), cleanup
 	case "buffer+close":
 		return &c11BufCloser{Buffer: bytes.NewBufferString(content)}, cleanup
 	case "writerto+close":
 		return &c11WriterToCloser{c11WriterTo: c11WriterTo{strings.NewReader(content)}}, cleanup
+	case "seeker+close": // Read, Seek, Close: what an *os.File looks like to a type test, without the file
+		return &c11SeekCloser{Reader: bytes.NewReader([]byte(content))}, cleanup
 	}
 	return &c11ReadCloser{r: strings.NewReader(content)}, cleanup
+}
+
+type c11SeekCloser struct {
+	*bytes.Reader
+	closed int
+}
+
+func (s *c11SeekCloser) Close() error { s.closed++; return nil }
+
+// ---------- the dynamic type of a value payload ----------
+// Whatever is not a reader goes to the producer registered for the media type, as it is. What the producer makes of
+// it is the producer's business (an oracle: the same producer is called by the harness on an equal value).
+var c11ValueTypes = []string{"", "bytes", "named-bytes", "ptr-bytes", "map", "struct", "ptr-struct", "slice", "int", "float",
+	"bool", "nilptr", "rawmessage", "marshaljson", "marshaltext", "stringer", "error", "byte-array"}
+
+type c11Blob []byte
+
+type c11Rec struct {
+	Name string `json:"name" xml:"name"`
+	N    int    `json:"n" xml:"n,attr"`
+}
+
+type c11JSONer struct{ s string }
+
+func (j c11JSONer) MarshalJSON() ([]byte, error) { return json.Marshal(map[string]string{"custom": j.s}) }
+
+type c11Texter struct{ s string }
+
+func (t c11Texter) MarshalText() ([]byte, error) { return []byte("text<" + t.s + ">"), nil }
+
+type c11Stringer struct{ s string }
+
+func (t c11Stringer) String() string { return "stringer<" + t.s + ">" }
+
+// c11MakeValue builds a fresh value of the requested dynamic type out of the case's content
+func c11MakeValue(vtype string, content []byte) any {
+	c := append([]byte(nil), content...)
+	switch vtype {
+	case "bytes":
+		return c
+	case "named-bytes":
+		return c11Blob(c)
+	case "ptr-bytes":
+		return &c
+	case "map":
+		return map[string]any{"k": string(c), "n": len(c)}
+	case "struct":
+		return c11Rec{Name: string(c), N: len(c)}
+	case "ptr-struct":
+		return &c11Rec{Name: string(c), N: len(c)}
+	case "slice":
+		return []string{string(c), "x"}
+	case "int":
+		return len(c)
+	case "float":
+		return float64(len(c)) / 4
+	case "bool":
+		return len(c)%2 == 0
+	case "nilptr": // a typed nil pointer is not a nil payload
+		return (*c11Rec)(nil)
+	case "rawmessage":
+		b, _ := json.Marshal(map[string]string{"raw": string(c)})
+		return json.RawMessage(b)
+	case "marshaljson":
+		return c11JSONer{string(c)}
+	case "marshaltext":
+		return c11Texter{string(c)}
+	case "stringer":
+		return c11Stringer{string(c)}
+	case "error":
+		return errors.New(string(c))
+	case "byte-array":
+		var a [4]byte
+		copy(a[:], c)
+		return a
+	}
+	return string(c)
 }
 
 var errC11Produce = errors.New("c11: producer refuses")
@@ -310,15 +485,42 @@ func c11Producers() map[string]runtime.Producer {
 	return p
 }
 
-func c11MakeFile(f c11File) runtime.NamedReadCloser {
+// c11MakeFile builds the upload the way f.Src says; osPath is the path of the *os.File behind it, if any
+func c11MakeFile(f c11File, tmpdir func() string) (file runtime.NamedReadCloser, osPath string) {
 	src := &c11Src{name: string(f.Name)}
 	for _, c := range f.Chunks {
 		src.chunks = append(src.chunks, []byte(c))
 	}
-	if f.Declared != nil {
-		return c11SrcCT{src, string(*f.Declared)}
+	osFile := func() *os.File {
+		fh, err := os.CreateTemp(tmpdir(), "upload-*.tmp")
+		if err != nil {
+			panic("c11: cannot create a temporary file: " + err.Error())
+		}
+		_, _ = fh.WriteString(c11Content(f))
+		_, _ = fh.Seek(0, io.SeekStart)
+		return fh
 	}
-	return src
+	switch f.Src {
+	case "named":
+		return runtime.NamedReader(string(f.Name), c11PlainSrc{src}), ""
+	case "named-bare":
+		return runtime.NamedReader(string(f.Name), c11BareSrc{src}), ""
+	case "named-own":
+		src.name = string(f.Inner)
+		return runtime.NamedReader(string(f.Name), src), ""
+	case "renamed":
+		return runtime.NamedReader(string(f.Name), runtime.NamedReader(string(f.Inner), c11PlainSrc{src})), ""
+	case "named-osfile":
+		fh := osFile()
+		return runtime.NamedReader(string(f.Name), fh), fh.Name()
+	case "osfile":
+		fh := osFile()
+		return fh, fh.Name()
+	}
+	if f.Declared != nil {
+		return c11SrcCT{src, string(*f.Declared)}, ""
+	}
+	return src, ""
 }
 
 func c11Content(f c11File) string {
@@ -347,7 +549,8 @@ func (c11) Run(inAny any) any {
 		if p, ok := producers[string(in.Media)]; ok {
 			obs.ProdReg = true
 			var b bytes.Buffer
-			pn, _ := recoverTo(func() { prodErr = p.Produce(&b, string(in.Content)) })
+			// a value of its own, equal to the one the request is given
+			pn, _ := recoverTo(func() { prodErr = p.Produce(&b, c11MakeValue(in.VType, []byte(in.Content))) })
 			if pn && prodErr == nil {
 				prodErr = errors.New("producer panicked")
 			}
@@ -398,6 +601,27 @@ func (c11) Run(inAny any) any {
 		streamPayload, cleanup = c11MakePayload(in)
 		defer cleanup()
 	}
+	tmp := ""
+	tmpdir := func() string {
+		if tmp == "" {
+			d, err := os.MkdirTemp("", "verif-c11-up-*")
+			if err != nil {
+				panic("c11: cannot create a temporary directory: " + err.Error())
+			}
+			tmp = d
+		}
+		return tmp
+	}
+	defer func() {
+		if tmp != "" {
+			_ = os.RemoveAll(tmp)
+		}
+	}()
+	var valuePayload any
+	if in.Payload == "value" {
+		valuePayload = c11MakeValue(in.VType, []byte(in.Content))
+		obs.ValueGo = fmt.Sprintf("%T", valuePayload)
+	}
 	writer := runtime.ClientRequestWriterFunc(func(req runtime.ClientRequest, _ strfmt.Registry) error {
 		if in.Preset != nil {
 			_ = req.SetHeaderParam("Content-Type", string(*in.Preset))
@@ -407,14 +631,21 @@ func (c11) Run(inAny any) any {
 		}
 		for _, ff := range in.Files {
 			var fs []runtime.NamedReadCloser
-			for _, f := range ff.Files {
-				fs = append(fs, c11MakeFile(f))
+			for j, f := range ff.Files {
+				file, osPath := c11MakeFile(f, tmpdir)
+				if osPath != "" {
+					if obs.OSNames == nil {
+						obs.OSNames = map[string]string{}
+					}
+					obs.OSNames[fmt.Sprintf("%s/%d", string(ff.Name), j)] = osPath
+				}
+				fs = append(fs, file)
 			}
 			_ = req.SetFileParam(string(ff.Name), fs...)
 		}
 		switch in.Payload {
 		case "value":
-			_ = req.SetBodyParam(string(in.Content))
+			_ = req.SetBodyParam(valuePayload)
 		case "reader", "readcloser":
 			_ = req.SetBodyParam(streamPayload)
 		}
@@ -579,6 +810,32 @@ func c11WireOrder(in c11In, parts []c11Part) ([]c11Field, []c11FileField) {
 	return form, files
 }
 
+// what a reader payload holds and how far the caller had read it
+func c11Unread(in c11In) string {
+	if len(in.Consumed) == 0 {
+		return coqBytes(string(in.Content))
+	}
+	return fmt.Sprintf("(reader_at %s %s)", coqBytes(string(in.Consumed)+string(in.Content)), coqNat(len(in.Consumed)))
+}
+
+// the name of an upload: source_name of how the caller made it (ClientBody.v: fsource, named_reader)
+func c11SourceTerm(f c11File, osPath string) string {
+	name := coqBytes(string(f.Name))
+	switch f.Src {
+	case "named", "named-bare":
+		return "(source_name (named_reader " + name + " FPlain))"
+	case "named-own":
+		return "(source_name (named_reader " + name + " (FOwn " + coqBytes(string(f.Inner)) + ")))"
+	case "renamed":
+		return "(source_name (named_reader " + name + " (named_reader " + coqBytes(string(f.Inner)) + " FPlain)))"
+	case "named-osfile":
+		return "(source_name (named_reader " + name + " (FOwn " + coqBytes(osPath) + ")))"
+	case "osfile":
+		return "(source_name (FOwn " + coqBytes(osPath) + "))"
+	}
+	return name
+}
+
 func c11OptBs(b *Bs) string {
 	if b == nil {
 		return "None"
@@ -603,17 +860,20 @@ func (c11) Coq(inAny any, obsAny any) string {
 	case "value":
 		payload = "PValue"
 	case "reader":
-		payload = "(PReader " + coqBytes(string(in.Content)) + ")"
+		payload = "(PReader " + c11Unread(in) + ")"
 		if c11IsBufferType(in) {
-			payload = "(PBuffer " + coqBytes(string(in.Content)) + ")"
+			payload = "(PBuffer " + c11Unread(in) + ")"
 		}
 	case "readcloser":
-		payload = "(PReadCloser " + coqBytes(string(in.Content)) + ")"
+		payload = "(PReadCloser " + c11Unread(in) + ")"
 	}
 	formT := coqList(form, func(f c11Field) string { return coqPair(coqBytes(string(f.Name)), coqBytesList(bsList(f.Values))) })
 	filesT := coqList(files, func(ff c11FileField) string {
+		j := -1
 		return coqPair(coqBytes(string(ff.Name)), coqList(ff.Files, func(f c11File) string {
-			return fmt.Sprintf("(mkfile %s %s %s)", coqBytes(string(f.Name)), coqBytesList(bsList(f.Chunks)), c11OptBs(f.Declared))
+			j++
+			name := c11SourceTerm(f, obs.OSNames[fmt.Sprintf("%s/%d", string(ff.Name), j)])
+			return fmt.Sprintf("(mkfile %s %s %s)", name, coqBytesList(bsList(f.Chunks)), c11OptBs(f.Declared))
 		}))
 	})
 	prod := "None"
@@ -713,6 +973,16 @@ func (c11) Category(inAny any, obsAny any) (string, bool) {
 	if (kind == "reader" || kind == "readcloser") && in.RType != "" {
 		kind += ":" + in.RType
 	}
+	if kind == "value" && in.VType != "" {
+		kind += ":" + in.VType
+	}
+	if len(in.Consumed) > 0 {
+		if in.SeekTo {
+			kind += "@seeked"
+		} else {
+			kind += "@partly-read"
+		}
+	}
 	if len(in.Form) > 0 || len(in.Files) > 0 {
 		mp := len(in.Files) > 0 || string(in.Media) == runtime.MultipartFormMime
 		switch {
@@ -740,6 +1010,16 @@ func (c11) Category(inAny any, obsAny any) (string, bool) {
 			}
 			kind += "/declared"
 		out:
+			// how the first upload that is not a plain caller type was made
+			for _, ff := range in.Files {
+				for _, f := range ff.Files {
+					if f.Src != "" {
+						kind += "/src:" + f.Src
+						goto out2
+					}
+				}
+			}
+		out2:
 		}
 		if in.Payload != "nil" {
 			kind += "+payload"
@@ -872,6 +1152,15 @@ func c11GenFile(r *rand.Rand, big bool) c11File {
 		d := Bs(c11Declared[r.Intn(len(c11Declared))])
 		f.Declared = &d
 	}
+	if r.Intn(3) == 0 {
+		f.Src = c11FileSources[r.Intn(len(c11FileSources))]
+		if f.Src == "named-own" || f.Src == "renamed" {
+			f.Inner = Bs(c11FileName(r))
+		}
+		if f.Src != "" {
+			f.Declared = nil
+		}
+	}
 	return f
 }
 
@@ -915,6 +1204,14 @@ func (c11) Gen(r *rand.Rand, tier string, i int) any {
 			in.RType = c11ReaderTypes[r.Intn(len(c11ReaderTypes))]
 		case "readcloser":
 			in.RType = c11ReadCloserTypes[r.Intn(len(c11ReadCloserTypes))]
+		case "value":
+			if r.Intn(3) > 0 {
+				in.VType = c11ValueTypes[r.Intn(len(c11ValueTypes))]
+			}
+		}
+		if in.Payload != "value" && r.Intn(3) == 0 { // the caller had read a prefix (or seeked past it)
+			in.Consumed = Bs(c11Bytes(r, []int{1, 4, 4, 16, 100, 600}[r.Intn(6)], r.Intn(2) == 0))
+			in.SeekTo = r.Intn(2) == 0
 		}
 	}
 	if shape >= 4 && shape != 5 {
@@ -934,7 +1231,7 @@ func (c11) Gen(r *rand.Rand, tier string, i int) any {
 			in.Auth = 1
 		}
 	}
-	return in
+	return c11Norm(in)
 }
 
 func (c11) Enumerate(tier string) []any {
@@ -995,6 +1292,60 @@ func (c11) Enumerate(tier string) []any {
 				Form: []c11Field{{Name: "k", Values: []Bs{"v"}}}})
 			out = append(out, c11In{Kind: "body", Method: "POST", Media: "multipart/form-data", Payload: pl, RType: rt, Content: "reader text", Auth: 1,
 				Form: []c11Field{{Name: "k", Values: []Bs{"v"}}}})
+		}
+	}
+	// every reader type handed over after the caller consumed a prefix (read, or skipped with Seek where the type can
+	// seek) x the auth writer asking or not x prefix / rest lengths
+	for _, pl := range []string{"reader", "readcloser"} {
+		types := c11ReaderTypes
+		if pl == "readcloser" {
+			types = c11ReadCloserTypes
+		}
+		for _, rt := range types {
+			for _, auth := range []int{-1, 0, 1, 2} {
+				for k, lens := range [][2]int{{1, 40}, {4, 0}, {16, 1}, {600, 3000}} {
+					for _, seek := range []bool{false, true} {
+						if seek && !c11In1(rt, c11SeekableTypes) {
+							continue
+						}
+						out = append(out, c11In{Kind: "body", Method: []string{"POST", "PUT"}[k%2], Media: []Bs{"application/octet-stream", "application/json"}[k%2],
+							Payload: pl, RType: rt, Consumed: Bs(c11Bytes(r, lens[0], k == 2)), SeekTo: seek, Content: Bs(c11Bytes(r, lens[1], k == 0)), Auth: auth})
+					}
+				}
+			}
+		}
+	}
+	// every dynamic type of a value payload x every media type (= every registered producer, and none)
+	for _, vt := range c11ValueTypes {
+		seenMedia := map[string]bool{}
+		for _, m := range c11Medias {
+			if seenMedia[m] {
+				continue
+			}
+			seenMedia[m] = true
+			for k, content := range []string{"payload text", "", "{\"a\":[1,2]}\n\x00\xff"} {
+				out = append(out, c11In{Kind: "body", Method: "POST", Media: Bs(m), Payload: "value", VType: vt, Content: Bs(content), Auth: []int{-1, 1, 2}[k]})
+			}
+		}
+	}
+	// every way of making an upload x names with and without directories x the own name of what is wrapped
+	for _, src := range c11FileSources {
+		for _, name := range []string{"report.txt", "dir/sub/a \"b\".bin", "C:\\x\\y.dat", ""} {
+			for _, inner := range []string{"other.bin", "/tmp/elsewhere/inner.txt"} {
+				if inner != "other.bin" && src != "named-own" && src != "renamed" {
+					continue
+				}
+				for _, auth := range []int{-1, 1} {
+					b := c11Bytes(r, 700, false)
+					copy(b, "%PDF-1.4\n")
+					f := c11File{Name: Bs(name), Chunks: []Bs{Bs(b[:300]), Bs(b[300:])}, Src: src}
+					if src == "named-own" || src == "renamed" {
+						f.Inner = Bs(inner)
+					}
+					out = append(out, c11In{Kind: "body", Method: "POST", Media: "multipart/form-data", Payload: "nil", Auth: auth,
+						Files: []c11FileField{{Name: "up", Files: []c11File{f, {Name: "second.txt", Chunks: []Bs{"plain"}}}}}})
+				}
+			}
 		}
 	}
 	// escapeQuotes / filepath.Base on every single byte and on byte pairs with the special ones
